@@ -6,6 +6,8 @@
 #if defined __has_include && __has_include(<version>)
 #include <version>
 #endif
+#include <exception>
+#include <utility>
 #include <variant>
 #include "bitserializer/serialization_detail/serialization_options.h"
 #include "bitserializer/serialization_detail/errors_handling.h"
@@ -49,6 +51,27 @@ namespace BitSerializer
 			}
 		}
 
+		/// <summary>
+		/// Remembers an error which occurred in a place that must not throw (a destructor of an archive scope).
+		/// Only the first error is kept (the subsequent ones are its consequences), `RethrowDeferredError()` reports it.
+		/// </summary>
+		void DeferError(std::exception_ptr error) noexcept
+		{
+			if (!mDeferredError) {
+				mDeferredError = std::move(error);
+			}
+		}
+
+		/// <summary>
+		/// Throws the error that was remembered by `DeferError()` (if any), should be called from `Finalize()` of the root scope.
+		/// </summary>
+		void RethrowDeferredError()
+		{
+			if (mDeferredError) {
+				std::rethrow_exception(std::exchange(mDeferredError, nullptr));
+			}
+		}
+
 		template <class TString>
 		constexpr TString& GetStringValueBuffer()
 		{
@@ -61,6 +84,8 @@ namespace BitSerializer
 		}
 
 	private:
+		std::exception_ptr mDeferredError;
+
 		using StringsVariant = std::variant<std::string,
 #if defined(__cpp_lib_char8_t)
 			std::u8string,
